@@ -55,6 +55,12 @@ pub fn check_case(case: &CtxCase, legs: &[LegSpec], rep: &mut Report) {
             return;
         }
     };
+    if orc.engine_disagrees(&case.input) {
+        // the regex library contradicts itself on this (pattern, input):
+        // recorded once, under C01; no verdict here
+        rep.count("skipped_regex_engine_disagrees_with_itself");
+        return;
+    }
     let term = case.cfg.term;
     let lines = split_lines(&case.input, term);
     let mask: Vec<bool> = lines
